@@ -257,6 +257,34 @@ def is_tree(n, bonds):
 def run_alignment(start, end, case):
     from gaddlemaps import Alignment
     ali = Alignment(start, end)
+    reuse = case.get("reuse")
+    if reuse is None:
+        reuse = int(case["seed"]) % 3 == 0 and not str(case.get("cls", "")).startswith("malformed")
+    if reuse:
+        # ONE Alignment object used twice (what a notebook session or a trajectory loop does): first on another
+        # conformation of the mobile molecule (all its bond lengths x1.37), then — after re-assigning start and
+        # end — on the case's molecules.  The second alignment must be what a fresh Alignment gives: bond
+        # lengths, widths etc. are those of the molecules held NOW (seed C06-3: bond table cached per species,
+        # Molecule.__eq__ compares names only).
+        try:
+            mobile_is_start = len(start) < len(end)
+            small = start if mobile_is_start else end
+            decoy = small.copy()
+            decoy.atoms_positions = np.array(decoy.atoms_positions) * 1.37 + np.array([0.3, -0.2, 0.1])
+            if mobile_is_start:
+                ali.start = decoy
+            else:
+                ali.end = decoy
+            ali.STEPS_FACTOR = 2
+            np.random.seed(12345)
+            with np.errstate(all="ignore"):
+                ali.align_molecules(restrictions=[tuple(r) for r in case["restr"]],
+                                    deformation_types=None if case["deform"] is None else tuple(case["deform"]),
+                                    ignore_hydrogens=bool(case["ignore_h"]))
+        except Exception:   # noqa: BLE001  (the decoy run is not the case under test)
+            pass
+        ali.start = start
+        ali.end = end
     ali.STEPS_FACTOR = int(case["steps_factor"])
     init = (snapshot(ali.start), snapshot(ali.end))
     restr = [tuple(r) for r in case["restr"]]
@@ -290,6 +318,8 @@ def evaluate(ctx, case):
         start, end = build(ctx, case["start"]), build(ctx, case["end"])
     cls = case.get("cls", "?")
     ctx.count("class:" + cls)
+    if case.get("reuse") or (case.get("reuse") is None and int(case["seed"]) % 3 == 0 and not cls.startswith("malformed")):
+        ctx.count("alignment-object-reused-after-a-decoy-run")
     caller0 = (snapshot(start), snapshot(end))
     ali, init, rec, err = run_alignment(start, end, case)
     caller1 = (snapshot(start), snapshot(end))
